@@ -8,6 +8,12 @@
 #include <algorithm>
 #include <numeric>
 #include <numbers>
+#include <cmath>
+// fses::syevj3 tests convergence with std::fpclassify(so) == FP_ZERO: for the symbolic scalar only an exact constant zero is zero
+namespace std {
+  inline int fpclassify(const symv::Sym& s) noexcept { return (s.isconst() && s.iszero()) ? FP_ZERO : FP_NORMAL; }
+}  // namespace std
+// (must be declared before the first inclusion of FSES/syevj3.ixx, which TFEL/Math/stensor.hxx pulls in)
 // private helpers of StensorComputeEigenVectors<3> (computeEigenVector, cross_product, find_perpendicular_vector)
 // are traced directly: open the classes of the TFEL headers (standard headers are all included above)
 #define private public
@@ -53,6 +59,7 @@ namespace tfel::math {
 #include "TFEL/Math/Stensor/Internals/StensorComputeEigenVectors.hxx"
 #include "TFEL/Math/Stensor/Internals/StensorEigenSolver.hxx"
 #include "FSES/sytrd3.hxx"
+#include "FSES/syevj3.hxx"
 #undef private
 #undef protected
 
@@ -121,6 +128,89 @@ std::vector<T> f_harari(const std::vector<T>& s) {
   tvector<3u, T> vp;
   ti::HarariEigensolver3x3<T>::computeEigenValues(vp, s[0], s[1], s[2], s[3], s[4], s[5]);
   return {vp[0], vp[1], vp[2]};
+}
+
+// ---- (d) one Jacobi rotation of fses::syevj3 from a general state.
+// syevj3 initialises Q to the identity and w to diag(A) itself, then loops.  The matrix wrappers below let the REAL function run
+// on a general state and stop it after its first rotation, without counting anything:
+//   phase 0: the code initialises Q;  first read of A (w = diag A): Q is replaced by the symbols q00..q22 (general orthogonal
+//   matrix of the preceding sweeps), phase 1;  first access to Q afterwards ("Update eigenvectors" of the first rotation that is
+//   carried out): phase 2;  next access to A (the rotation is complete, the sweep goes on): JacCut is thrown.
+// If no rotation is ever carried out the function runs to its end (tag 0).
+namespace c03 {
+  struct JacCut {};
+  struct JacState {
+    int phase = 0;
+    std::vector<symv::Sym> qsym;
+  };
+  template <typename T>
+  struct JacQ {
+    T q[3][3];
+    JacState* st = nullptr;
+    T& operator()(int i, int j) {
+      if (st != nullptr && st->phase == 1) st->phase = 2;
+      return q[i][j];
+    }
+    const T& operator()(int i, int j) const { return q[i][j]; }
+  };
+  template <typename T>
+  struct JacA {
+    T a[3][3];
+    JacState* st = nullptr;
+    JacQ<T>* Q = nullptr;
+    std::vector<T> qinit;
+    T& operator()(int i, int j) {
+      if (st != nullptr) {
+        if (st->phase == 0) {
+          st->phase = 1;
+          for (int r = 0; r < 3; ++r)
+            for (int c = 0; c < 3; ++c) Q->q[r][c] = qinit[3 * r + c];
+        } else if (st->phase == 2) {
+          throw JacCut();
+        }
+      }
+      return a[i][j];
+    }
+    const T& operator()(int i, int j) const { return a[i][j]; }
+  };
+  template <typename T>
+  struct JacW {
+    T w[3];
+    T& operator()(int i) { return w[i]; }
+    const T& operator()(int i) const { return w[i]; }
+  };
+}  // namespace c03
+// ps = a01 a02 a12 d0 d1 d2 q00 .. q22  ->  tag a01' a02' a12' w0 w1 w2 Q'(row major); tag 1: stopped after the first rotation
+template <typename T>
+std::vector<T> f_jac(const std::vector<T>& ps) {
+  c03::JacState st;
+  c03::JacQ<T> Q;
+  c03::JacA<T> A;
+  c03::JacW<T> w;
+  Q.st = &st;
+  A.st = &st;
+  A.Q = &Q;
+  A.qinit.assign(ps.begin() + 6, ps.end());
+  A.a[0][1] = A.a[1][0] = ps[0];
+  A.a[0][2] = A.a[2][0] = ps[1];
+  A.a[1][2] = A.a[2][1] = ps[2];
+  A.a[0][0] = ps[3];
+  A.a[1][1] = ps[4];
+  A.a[2][2] = ps[5];
+  for (int i = 0; i < 3; ++i) {
+    w.w[i] = T(0);
+    for (int j = 0; j < 3; ++j) Q.q[i][j] = T(0);
+  }
+  T tag(0);
+  try {
+    fses::syevj3(Q, w, A);
+  } catch (c03::JacCut&) {
+    tag = T(1);
+  }
+  std::vector<T> r{tag, A.a[0][1], A.a[0][2], A.a[1][2], w.w[0], w.w[1], w.w[2]};
+  for (int i = 0; i < 3; ++i)
+    for (int j = 0; j < 3; ++j) r.push_back(Q.q[i][j]);
+  return r;
 }
 
 // ---------------------------------------------------------------- agreement Sym tree vs double instantiation
@@ -272,7 +362,9 @@ int main(int argc, char** argv) {
     std::vector<Sym> ps = a;
     ps.push_back(var("vp"));
     c03::stub_throws = true;
+    tr.merge_equal_branches = true;  // many sibling sub-trees are identical (delegation to the full solver): print them once
     auto leaves = tr.def_paths("evec3", ps, [&] { return f_evec3<Sym>(ps); });
+    tr.merge_equal_branches = false;
     c03::stub_throws = false;
     std::printf("LEAVES evec3 %zu\n", leaves.size());
     agree("evec3", leaves, ps, rng, nag, [](const std::vector<double>& x) { return f_evec3<double>(x); },
@@ -295,6 +387,25 @@ int main(int argc, char** argv) {
     auto lp = tr.def_paths("perp", xy, [&] { return f_perp<Sym>(xy); });
     std::printf("LEAVES perp %zu\n", lp.size());
     agree("perp", lp, xy, rng, nag, [](const std::vector<double>& x) { return f_perp<double>(x); }, uniform_gen(3, -2, 2));
+  }
+  // (d) one rotation of the cyclic Jacobi method from a general state
+  {
+    std::vector<Sym> p{var("a01"), var("a02"), var("a12"), var("d0"), var("d1"), var("d2")};
+    for (int i = 0; i < 3; ++i)
+      for (int j = 0; j < 3; ++j) p.push_back(var("q" + std::to_string(i) + std::to_string(j)));
+    tr.merge_equal_branches = true;
+    auto leaves = tr.def_paths("jac1", p, [&] { return f_jac<Sym>(p); });
+    tr.merge_equal_branches = false;
+    std::printf("LEAVES jac1 %zu\n", leaves.size());
+    agree("jac1", leaves, p, rng, nag, [](const std::vector<double>& x) { return f_jac<double>(x); },
+          [](Rng& r) {
+            std::vector<double> x;
+            const int kind = r.below(4);
+            for (int i = 0; i < 3; ++i) x.push_back(kind == 1 && r.below(2) ? 0. : r.range(-2, 2) * (kind == 2 ? 1e-17 : 1.));
+            for (int i = 0; i < 3; ++i) x.push_back(r.range(-2, 2));
+            for (int i = 0; i < 9; ++i) x.push_back(r.range(-1, 1));
+            return x;
+          });
   }
   // (e) Householder reduction to tridiagonal form
   {
